@@ -211,7 +211,7 @@ def invert_pl_function(x: np.ndarray, y: np.ndarray, t: np.ndarray) -> List[np.n
     # Deal with cases where we don't have solutions
     for j in range(len(s)):
         if len(s[j]) == 0:
-            s[j].append(s_min[j])
+            s[j].append(s_min[j, 0])
 
     # Convert to list of arrays
     s = [np.asarray(z) for z in s]
